@@ -123,12 +123,13 @@ def source_links():
     import os, re
     from bounded import site
     files = {"src/core/Solver.f90": "module solver\n  !! in Solver.f90\n  integer :: s\nend module solver\n",
-             "src/util/grid.f90": "module grid\n  !! in grid.f90\n  integer :: g\nend module grid\n"}
-    with site.site(files, "src_dir: ./src\noutput_dir: ./doc\ngraph: false\nsearch: false\nincl_src: true\n") as (pd, status):
+             "src/util/grid.f90": "module grid\n  !! in grid.f90\n  integer :: g\nend module grid\n",
+             "src/util/Defs.h": "//! constants of the C side\n#define N 3\n"}
+    with site.site(files, "src_dir: ./src\noutput_dir: ./doc\ngraph: false\nsearch: false\nincl_src: true\nextra_filetypes: h //\n") as (pd, status):
         if not status.startswith("ok"):
             return {"confirmed": True, "input": {"files": files}, "actual": f"run failed: {status}", "expected": "ok", "how": "end-to-end run"}
         bad = []
-        for page, src in (("module/solver.html", "src/core/Solver.f90"), ("module/grid.html", "src/util/grid.f90")):
+        for page, src in (("module/solver.html", "src/core/Solver.f90"), ("module/grid.html", "src/util/grid.f90"), ("sourcefile/defs.h.html", "src/util/Defs.h")):
             text = open(os.path.join(pd, "doc", page), encoding="utf-8").read()
             m = re.search(r'href="([^"]*/src/[^"]*)"', text)
             if not m:
@@ -158,7 +159,8 @@ PAGE_FILES = {
 
 def page_files():
     """real end-to-end run: entities whose identifiers contain dots (source files, operator interfaces) or share a stem, and the specific procedures of a generic
-    interface given as interface bodies: every page object has its own file, every link leads to it, and no two distinct procedures share an id on a page"""
+    interface given as interface bodies: every page object has its own file, every link leads to it, and no two distinct procedures or variables (dummy arguments of the
+    same name in different procedures) share an id on a page"""
     import os, re, collections
     from bounded import site, realrun
     with site.site(PAGE_FILES, "src_dir: ./src\noutput_dir: ./doc\ngraph: false\nsearch: true\nincl_src: true\n") as (pd, status):
@@ -180,7 +182,7 @@ def page_files():
         for d, _, ff in os.walk(out):
             for f in ff:
                 if f.endswith(".html"):
-                    ids = re.findall(r'\bid="(proc-[^"]*)"', open(os.path.join(d, f), encoding="utf-8", errors="replace").read())
+                    ids = re.findall(r'\bid="((?:proc|variable)-[^"]*)"', open(os.path.join(d, f), encoding="utf-8", errors="replace").read())
                     # the same procedure may be summarised twice on a page (module page: list and detail); distinct procedures must differ
                     dup = [i for i, k in collections.Counter(ids).items() if k > 2]
                     if dup:
